@@ -1,3 +1,5 @@
+import os
+import sys
 """Exact number types on which gcmpy's generic arithmetic runs unchanged (DESIGN §3.2)."""
 from fractions import Fraction
 import math
@@ -22,6 +24,9 @@ def _fr(x):
     except Exception:
         pass
     return NotImplemented
+
+
+_HARNESS = os.path.dirname(os.path.dirname(os.path.abspath(__file__)))
 
 
 class Ex:
@@ -77,7 +82,14 @@ class Ex:
     def __neg__(self): return Ex(-self.v)
     def __pos__(self): return self
     def __abs__(self): return Ex(abs(self.v))
-    def __float__(self): return float(self.v)
+    def __float__(self):
+        # the harness may turn an exact value into a double; the code under test may not do so silently (math.pow, float(), numpy):
+        # a result computed half exactly and half in doubles would be compared as if it were exact.  A TypeError naming this type
+        # is classified by the runner as "not observed in exact arithmetic", never as a verdict on the property.
+        f = sys._getframe(1)
+        if not f.f_code.co_filename.startswith(_HARNESS):
+            raise TypeError("must be real number, not Ex")
+        return float(self.v)
     def __int__(self): return int(self.v)
     def __trunc__(self): return math.trunc(self.v)
     def __floor__(self): return math.floor(self.v)
